@@ -76,267 +76,101 @@ func (c *Ctx) linEval(e ast.Expr, env map[string]*Lin, lens map[types.Object]*Li
 // ruleRefill: the refill block of next() preserves global offsets and the
 // unread bytes, and reports the chunk's global offset to the line table.
 func ruleRefill(c *Ctx, r *Report, rule string) {
-	r.rule(rule, 5, "refill in next(): after `input = input[a:] + chunk` the global offsets pos+posShift and start+posShift are unchanged, no byte from the token start on is dropped, the window shift equals a, and the line-table updater receives the chunk together with the global offset of its first byte (posShift + len(input) before the refill)")
-	_, fd := c.find("lexer.next")
-	if fd == nil {
-		r.bad(rule, "lexer.next", "function not found", "")
+	r.rule(rule, 5, "a refill in next() (wherever its statements live: in next itself or in helpers it calls): after `input = input[a:] + chunk` the global offsets pos+posShift and start+posShift are unchanged, no byte from the token start on is dropped, the window shift equals a, and the line-table updater receives the chunk together with the global offset of its first byte (posShift + len(input) before the refill)")
+	m, err := c.nextModel()
+	if err != nil {
+		r.bad(rule, "lexer.next", err.Error(), "")
 		return
 	}
 	r.fn("lexer.next")
-	// find the block that receives from l.inputs
-	var blk *ast.BlockStmt
-	var recvStmt *ast.AssignStmt
-	var chunk types.Object
-	nRecv := 0
-	var find func(b *ast.BlockStmt)
-	find = func(b *ast.BlockStmt) {
-		for _, s := range b.List {
-			if as, ok := s.(*ast.AssignStmt); ok && len(as.Rhs) == 1 {
-				if ue, ok := as.Rhs[0].(*ast.UnaryExpr); ok && ue.Op == token.ARROW && c.fieldPath(ue.X) == "<lexer>.inputs" {
-					nRecv++
-					blk, recvStmt = b, as
-					chunk = c.objOf(as.Lhs[0])
-				}
-			}
-			ast.Inspect(s, func(n ast.Node) bool {
-				if inner, ok := n.(*ast.BlockStmt); ok && inner != b {
-					find(inner)
-					return false
-				}
-				return true
-			})
-		}
+	pos := c.pos(m.Fn.Pos())
+	for _, u := range m.Undecided {
+		r.undecided(rule, "next/model", u, pos)
 	}
-	find(fd.Body)
-	if blk == nil || nRecv != 1 {
-		r.bad(rule, "receive", fmt.Sprintf("expected exactly one receive from l.inputs in next(), found %d", nRecv), c.pos(fd.Pos()))
-		return
-	}
-	env := map[string]*Lin{
-		"<lexer>.pos": linSym("pos"), "<lexer>.start": linSym("start"), "<lexer>.posShift": linSym("posShift"),
-		"len(<lexer>.input)": linSym("len"),
-	}
-	lens := map[types.Object]*Lin{chunk: linSym("chunk")}
-	var lpOff *Lin
-	var lpArgOK bool
-	var low *Lin
-	keptToEnd := false
-	concatOK := false
-	after := false
-	problems := []string{}
-	for _, s := range blk.List {
-		if s == ast.Stmt(recvStmt) {
-			after = true
+	n := 0
+	for _, p := range m.Iter {
+		if !p.received {
 			continue
 		}
-		if !after {
+		n++
+		sfx := ""
+		if n > 1 {
+			sfx = fmt.Sprintf("#%d", n)
+		}
+		if len(p.problems) > 0 {
+			r.undecided(rule, "refill-block"+sfx, strings.Join(p.problems, "; "), pos)
 			continue
 		}
-		switch s := s.(type) {
-		case *ast.IfStmt:
-			// the `!ok` branch: must leave the refill (break/return) — not part of the arithmetic
-			continue
-		case *ast.ExprStmt:
-			call, ok := s.X.(*ast.CallExpr)
-			if ok && c.fieldPath(call.Fun) == "<lexer>.lpUpd" && len(call.Args) == 2 {
-				lpArgOK = c.isObj(call.Args[0], chunk)
-				lpOff, _ = c.linEval(call.Args[1], env, lens)
-				continue
-			}
-			problems = append(problems, "unexpected call in the refill block at "+c.pos(s.Pos()))
-		case *ast.AssignStmt:
-			if len(s.Lhs) != 1 || len(s.Rhs) != 1 {
-				problems = append(problems, "unexpected assignment at "+c.pos(s.Pos()))
-				continue
-			}
-			fp := c.fieldPath(s.Lhs[0])
-			if fp == "<lexer>.input" {
-				be, ok := stripParens(s.Rhs[0]).(*ast.BinaryExpr)
-				if !ok || be.Op != token.ADD || !c.isObj(be.Y, chunk) {
-					problems = append(problems, "input is not rebuilt as <kept part> + chunk")
-					continue
-				}
-				se, ok := stripParens(be.X).(*ast.SliceExpr)
-				if !ok || c.fieldPath(se.X) != "<lexer>.input" || se.Low == nil {
-					problems = append(problems, "the kept part is not input[a:]")
-					continue
-				}
-				low, _ = c.linEval(se.Low, env, lens)
-				high := env["len(<lexer>.input)"]
-				if se.High != nil {
-					if h, ok := c.linEval(se.High, env, lens); ok {
-						high = h
-					} else {
-						high = nil
-					}
-				}
-				keptToEnd = high != nil && high.equal(env["len(<lexer>.input)"])
-				concatOK = low != nil
-				if low != nil && high != nil {
-					env["len(<lexer>.input)"] = high.sub(low).add(linSym("chunk"))
-				}
-				continue
-			}
-			cur, tracked := env[fp]
-			if !tracked {
-				problems = append(problems, "assignment to "+fp+" in the refill block")
-				continue
-			}
-			v, ok := c.linEval(s.Rhs[0], env, lens)
-			if !ok {
-				problems = append(problems, "non-linear update of "+fp)
-				continue
-			}
-			switch s.Tok {
-			case token.ASSIGN:
-				env[fp] = v
-			case token.ADD_ASSIGN:
-				env[fp] = cur.add(v)
-			case token.SUB_ASSIGN:
-				env[fp] = cur.sub(v)
-			default:
-				problems = append(problems, "unexpected operator on "+fp)
-			}
-		default:
-			problems = append(problems, fmt.Sprintf("unexpected statement %T in the refill block", s))
-		}
+		r.check(p.recvs == 1, rule, "receive"+sfx, "one receive per refill", fmt.Sprintf("a refill receives %d times from l.inputs, expected exactly one", p.recvs), pos)
+		g1 := p.pos.add(p.shift).equal(linSym("pos").add(linSym("posShift")))
+		g2 := p.start.add(p.shift).equal(linSym("start").add(linSym("posShift")))
+		r.check(g1, rule, "cursor-offset"+sfx, "pos+posShift unchanged", fmt.Sprintf("after a refill pos+posShift is %s; it must stay pos+posShift", p.pos.add(p.shift)), pos)
+		r.check(g2, rule, "token-start-offset"+sfx, "start+posShift unchanged", fmt.Sprintf("after a refill start+posShift is %s; it must stay start+posShift", p.start.add(p.shift)), pos)
+		shiftOK := p.appended && p.keptFrom != nil && p.shift.sub(linSym("posShift")).equal(p.keptFrom) && p.keptFrom.equal(linSym("start"))
+		r.check(shiftOK, rule, "window-shift"+sfx, "the window is cut at the token start and posShift grows by exactly that", fmt.Sprintf("the window must be rebuilt as input[start:] + chunk and posShift must grow by the same amount; cut at %v, posShift grows by %s", p.keptFrom, p.shift.sub(linSym("posShift"))), pos)
+		r.check(p.keptToEnd, rule, "keeps-unread"+sfx, "every byte from the token start to the end of the buffer is kept", "the refill drops buffered bytes after the cursor (input[start:pos] instead of input[start:]): a partially buffered character would be lost", pos)
+		want := linSym("posShift").add(linSym("len"))
+		r.check(p.lpCalls == 1 && p.lpChunk && p.lpOff != nil && p.lpOff.equal(want), rule, "line-table-offset"+sfx, "lpUpd(chunk, posShift+len(input)) with the pre-refill values", fmt.Sprintf("the line table must get the chunk, once, with the global offset of its first byte, posShift+len(input) before the refill; it gets %v (%d calls)", p.lpOff, p.lpCalls), pos)
 	}
-	pos := c.pos(recvStmt.Pos())
-	if len(problems) > 0 {
-		r.undecided(rule, "refill-block", strings.Join(problems, "; "), pos)
-		return
+	if n == 0 {
+		r.bad(rule, "receive", "next() has no path that receives a chunk from l.inputs inside its refill loop", pos)
 	}
-	g1 := env["<lexer>.pos"].add(env["<lexer>.posShift"]).equal(linSym("pos").add(linSym("posShift")))
-	g2 := env["<lexer>.start"].add(env["<lexer>.posShift"]).equal(linSym("start").add(linSym("posShift")))
-	r.check(g1, rule, "cursor-offset", "pos+posShift unchanged", fmt.Sprintf("after a refill pos+posShift is %s; it must stay pos+posShift", env["<lexer>.pos"].add(env["<lexer>.posShift"])), pos)
-	r.check(g2, rule, "token-start-offset", "start+posShift unchanged", fmt.Sprintf("after a refill start+posShift is %s; it must stay start+posShift", env["<lexer>.start"].add(env["<lexer>.posShift"])), pos)
-	shiftOK := concatOK && low != nil && env["<lexer>.posShift"].sub(linSym("posShift")).equal(low) && low.equal(linSym("start"))
-	r.check(shiftOK, rule, "window-shift", "the window is cut at the token start and posShift grows by exactly that", fmt.Sprintf("the window must be cut at the token start (input[start:]) and posShift must grow by the same amount; cut at %v, posShift grows by %s", low, env["<lexer>.posShift"].sub(linSym("posShift"))), pos)
-	r.check(keptToEnd, rule, "keeps-unread", "every byte from the token start to the end of the buffer is kept", "the refill drops buffered bytes after the cursor (input[start:pos] instead of input[start:]): a partially buffered character would be lost", pos)
-	want := linSym("posShift").add(linSym("len"))
-	r.check(lpArgOK && lpOff != nil && lpOff.equal(want), rule, "line-table-offset", "lpUpd(chunk, posShift+len(input)) with the pre-refill values", fmt.Sprintf("the line table must get the chunk with the global offset of its first byte, posShift+len(input) before the refill; it gets %v", lpOff), pos)
 }
 
 // ruleFullRune: a rune is decoded only when complete or the input has ended.
 func ruleFullRune(c *Ctx, r *Report, rule string) {
-	r.rule(rule, 3, "next() decodes a rune only after a loop that keeps refilling while the input is open and utf8.FullRuneInString(input[pos:]) is false (an empty chunk therefore just loops); the loop is left early only after the input channel reported closed")
-	_, fd := c.find("lexer.next")
-	if fd == nil {
-		r.bad(rule, "lexer.next", "function not found", "")
+	r.rule(rule, 3, "next() decodes a rune from input[pos:] only when utf8.FullRune…(input[pos:]) is known to hold or the input has ended (an empty chunk therefore just goes round the refill loop again); the refill loop is left by break/return only after the input channel was found closed and inputsDone was set")
+	m, err := c.nextModel()
+	if err != nil {
+		r.bad(rule, "lexer.next", err.Error(), "")
 		return
 	}
-	var loop *ast.ForStmt
-	var decode *ast.CallExpr
-	loopIdx, decIdx := -1, -1
-	for i, s := range fd.Body.List {
-		if fs, ok := s.(*ast.ForStmt); ok && loop == nil {
-			loop, loopIdx = fs, i
-		}
-		ast.Inspect(s, func(n ast.Node) bool {
-			if call, ok := n.(*ast.CallExpr); ok && strings.HasPrefix(c.calleeName(call), "unicode/utf8.DecodeRune") {
-				if _, inLoop := s.(*ast.ForStmt); !inLoop && decode == nil {
-					decode, decIdx = call, i
-				}
-			}
-			return true
-		})
+	pos := c.pos(m.Fn.Pos())
+	for _, u := range m.Undecided {
+		r.undecided(rule, "next/model", u, pos)
 	}
-	if loop == nil || decode == nil || loopIdx > decIdx {
-		r.bad(rule, "loop-before-decode", "next() must refill in a loop placed before the rune is decoded", c.pos(fd.Pos()))
+	if !m.HasLoop {
+		r.bad(rule, "loop-before-decode", "next() must refill in a loop placed before the rune is decoded", pos)
 		return
 	}
-	// condition: conjunction of !inputsDone and !FullRune(input[pos:])
-	var conj []ast.Expr
-	var flat func(e ast.Expr)
-	flat = func(e ast.Expr) {
-		if be, ok := stripParens(e).(*ast.BinaryExpr); ok && be.Op == token.LAND {
-			flat(be.X)
-			flat(be.Y)
-			return
-		}
-		conj = append(conj, stripParens(e))
-	}
-	if loop.Cond != nil {
-		flat(loop.Cond)
-	}
-	hasDone, hasFull, other := false, false, 0
-	sameSlice := false
-	for _, e := range conj {
-		ue, ok := e.(*ast.UnaryExpr)
-		if !ok || ue.Op != token.NOT {
-			other++
+	// the decode
+	okDec, nDec := true, 0
+	why := ""
+	for _, p := range m.Final {
+		if !p.decoded {
 			continue
 		}
-		switch x := stripParens(ue.X).(type) {
-		case *ast.SelectorExpr:
-			if c.fieldPath(x) == "<lexer>.inputsDone" {
-				hasDone = true
-			} else {
-				other++
-			}
-		case *ast.CallExpr:
-			if strings.HasPrefix(c.calleeName(x), "unicode/utf8.FullRune") && len(x.Args) == 1 {
-				hasFull = true
-				sameSlice = c.sliceShape(x.Args[0]) == c.sliceShape(decode.Args[0]) && c.sliceShape(x.Args[0]) == "<lexer>.input[<lexer>.pos:]"
-			} else {
-				other++
-			}
-		default:
-			other++
+		nDec++
+		if !(p.decFull || p.decDone) {
+			okDec = false
+			why = "a path decodes a rune although neither a full rune is known to be buffered nor the input known to have ended"
+		}
+		if p.decodeSlice != "<lexer>.input[<lexer>.pos:]" || (p.fullSlice != "" && p.fullSlice != p.decodeSlice) {
+			okDec = false
+			why = fmt.Sprintf("the rune is decoded from %s but completeness was tested on %s", p.decodeSlice, p.fullSlice)
 		}
 	}
-	r.check(hasDone && hasFull && other == 0 && sameSlice, rule, "loop-condition", "for !inputsDone && !FullRune(input[pos:])", "the refill loop must run exactly while the input is open and input[pos:] does not hold a full rune, and the rune must be decoded from that same input[pos:]", c.pos(loop.Pos()))
-	// breaks only after inputsDone = true; no return inside the loop before decode
-	okBreak := true
-	var check func(list []ast.Stmt)
-	check = func(list []ast.Stmt) {
-		set := false
-		for _, s := range list {
-			switch s := s.(type) {
-			case *ast.AssignStmt:
-				if len(s.Lhs) == 1 && c.fieldPath(s.Lhs[0]) == "<lexer>.inputsDone" {
-					if v := c.constOf(s.Rhs[0]); v != nil && v.ExactString() == "true" {
-						set = true
-					} else {
-						okBreak = false
-					}
-				}
-			case *ast.BranchStmt:
-				if s.Tok == token.BREAK && !set {
-					okBreak = false
-				}
-			case *ast.ReturnStmt:
-				okBreak = false
-			case *ast.IfStmt:
-				check(s.Body.List)
-				if s.Else != nil {
-					if b, ok := s.Else.(*ast.BlockStmt); ok {
-						check(b.List)
-					}
-				}
-			case *ast.BlockStmt:
-				check(s.List)
+	r.check(okDec && nDec > 0, rule, "loop-condition", "decode only after FullRune(input[pos:]) or end of input", "next(): "+why, pos)
+	// leaving the loop early
+	okBreak, okClosed, sawClosed := true, true, false
+	for _, p := range append(append([]nextPay(nil), m.Iter...), m.Final...) {
+		if p.closed {
+			sawClosed = true
+			if p.doneSet != "true" || p.appended || p.lpCalls > 0 {
+				okClosed = false
 			}
 		}
 	}
-	check(loop.Body.List)
-	r.check(okBreak, rule, "early-exit", "the loop is left early only after inputsDone = true", "the refill loop must not be left (break/return) unless the input channel was just found closed (inputsDone = true)", c.pos(loop.Pos()))
-	// the !ok branch belongs to the receive
-	okClosed := false
-	ast.Inspect(loop.Body, func(n ast.Node) bool {
-		ifs, ok := n.(*ast.IfStmt)
-		if !ok {
-			return true
+	for _, p := range m.Iter {
+		if (p.leftLoop == "break" || p.leftLoop == "return") && !(p.closed && p.doneSet == "true") {
+			okBreak = false
 		}
-		if ue, ok := stripParens(ifs.Cond).(*ast.UnaryExpr); ok && ue.Op == token.NOT {
-			if id, ok := stripParens(ue.X).(*ast.Ident); ok && id.Name != "" {
-				// ok variable of the receive
-				okClosed = true
-			}
+		if p.received && p.leftLoop != "" {
+			okBreak = false // a received chunk (possibly empty) must lead back to the completeness test
 		}
-		return true
-	})
-	r.check(okClosed, rule, "closed-detect", "the closed channel is detected by the receive's second value", "the receive from the input channel must test its second value to detect the end of input", c.pos(loop.Pos()))
+	}
+	r.check(okBreak, rule, "early-exit", "the loop is left early only after inputsDone = true", "the refill loop must not be left (break/return) unless the input channel was just found closed (inputsDone = true); after a received chunk it must test again", pos)
+	r.check(sawClosed && okClosed, rule, "closed-detect", "the closed channel is detected by the receive's second value and recorded in inputsDone", "the receive from the input channel must test its second value to detect the end of input, and set inputsDone without touching the window", pos)
 }
 
 // sliceShape renders l.input[l.pos:] as "<lexer>.input[<lexer>.pos:]".
